@@ -23,6 +23,7 @@ type mapEntry struct{ key, val string }
 type Engine struct {
 	repo       string
 	verifDir   string
+	outDir     string
 	prog       *ssa.Program
 	pkgs       []*packages.Package
 	ssaPkgs    []*ssa.Package
@@ -143,7 +144,11 @@ func (e *Engine) globalID(name string) int {
 }
 
 func loadEngine(repo, verifDir string) (*Engine, error) {
-	e := &Engine{repo: repo, verifDir: verifDir, types: newTypeReg(), specs: newSpecDB(), fnByKey: map[string][]*ssa.Function{},
+	outDir := os.Getenv("VERIF_OUT")
+	if outDir == "" {
+		outDir = verifDir
+	}
+	e := &Engine{repo: repo, verifDir: verifDir, outDir: outDir, types: newTypeReg(), specs: newSpecDB(), fnByKey: map[string][]*ssa.Function{},
 		closures: map[string]*closureInfo{}, globalIDs: map[string]int{}, mapLits: map[string][]mapEntry{}, specErrors: map[string]bool{}}
 	env := []string{}
 	for _, kv := range os.Environ() {
